@@ -24,7 +24,7 @@ RULE = (
     "with >= 2 fields; distinct = distinct (hierarchy source, order, first accessor)"
 )
 ASSUMPTIONS = ["dataclass field merge order computed from the spec is cross-checked against dataclasses.fields on every class"]
-MUST_SEE = ["equal_twin_with_reused_id", "explicit_hash_flag", "init_false_and_compare_false", "subclass_first", "base_first", "falsy_children", "empty_tuples", "overrides", "positional_calls", "multiple_inheritance", "accessor_calls"]
+MUST_SEE = ["same_named_class_pairs", "equal_twin_with_reused_id", "explicit_hash_flag", "init_false_and_compare_false", "subclass_first", "base_first", "falsy_children", "empty_tuples", "overrides", "positional_calls", "multiple_inheritance", "accessor_calls"]
 CONFIG = {
     "quick": {"shards": 16, "hierarchies": 14, "watchdog_s": 300},
     "thorough": {"shards": 32, "hierarchies": 150, "watchdog_s": 3000},
@@ -53,6 +53,10 @@ class {P}Fz(ASTNode):
 class {P}Fb({P}N0):
     def __bool__(self):
         return False
+
+{P}Ref = NewType("{P}Ref", {P}N0)
+{P}RefSeq = NewType("{P}RefSeq", tuple[{P}Ref, ...])
+{P}RefOpt = NewType("{P}RefOpt", Optional[{P}Ref])
 """
 
 
@@ -67,6 +71,11 @@ def child_pool(P):
         ("tuple", f"tuple[{N0}, ...]", (N0,)),
         ("tuple", f"Tuple[{N0} | {Fz}, ...]", (N0, Fz)),
         ("fixed2", f"tuple[{N0}, {N1}]", (N0, N1)),
+        # NewType aliases: of a node class, and of a generic over such an alias
+        ("one", f"{P}Ref", (N0,)),
+        ("tuple", f"{P}RefSeq", (N0,)),
+        ("opt", f"{P}RefOpt", (N0,)),
+        ("tuple", f"tuple[{P}Ref, ...]", (N0,)),
     ]
 
 
@@ -429,3 +438,43 @@ def run_shard(ctx):
                 import traceback
 
                 ctx.violation("accessor-raised", f"{type(e).__name__}: {e}", dict(detail, tb=traceback.format_exc()[-600:]))
+
+
+    # ---- two different classes with one module and one (qualified) name: each follows its own definition ----
+    for k in range(3):
+        rng = ctx.rng(("same-name", k))
+        P = f"D{ctx.shard}x{k}_"
+        unis = []
+        for gen_no in range(2):
+            specs = gen_hierarchy(ctx.rng(("same-name", k, gen_no)), P)
+            Ux = Universe(f"verif_c12_samename_{P}{gen_no}", specs, prelude_extra=PRELUDE_EXTRA.replace("{P}", P))
+            try:
+                if gen_no == 0:
+                    Ux.exec()
+                else:
+                    # the class statements are executed again in the *same* module (the helper classes of the
+                    # prelude stay the same objects): same module, same qualified names, other fields
+                    Ux.module = unis[0][0].module
+                    exec(compile("\n".join(Universe.render_class(s_) for s_ in specs), f"<c12 same-name {P}>", "exec", dont_inherit=True), Ux.module.__dict__)
+                    Ux.cls = {s_.name: Ux.module.__dict__[s_.name] for s_ in specs}
+            except Exception:  # noqa: BLE001
+                break
+            Ux.P = P
+            unis.append((Ux, specs))
+        if len(unis) < 2:
+            continue
+        ctx.count("same_named_class_pairs")
+        order = [(u, sp, c.name) for u, sp in unis for c in sp]
+        rng.shuffle(order)
+        for Ux, specs, cname in order + order:
+            detail = {"source": "\n".join(Universe.render_class(s_) for s_ in specs), "history": "another class with the same module and name (other fields) exists and is used in between"}
+            try:
+                inst = make_instance(rng, Ux, cname)
+                check_instance(ctx, Ux, cname, inst, detail, rng, full=False)
+            except AssertionError:
+                raise
+            except Exception as e:  # noqa: BLE001
+                import traceback
+
+                ctx.violation("accessor-raised", f"{type(e).__name__}: {e}", dict(detail, tb=traceback.format_exc()[-600:]))
+                break
